@@ -89,10 +89,7 @@ theorem write_mem_congr (st st' : St) (n : String) (l : Loc) (v : Val) (h : st'.
 
 /-! ### one attribute -/
 
-def convEvents (a : Attr) (v : Val) : List Event :=
-  match a.conv with
-  | some c => [ev "conv" a.name 0 (convEventArgs a c v)]
-  | none => []
+abbrev convEvents (a : Attr) (v : Val) : List Event := convEventsOf a v
 
 /-- result of `x = conv(v)`: shape of a state after a step that emitted `es` and, unless one of them failed,
     wrote `w` for field `a` at `l` -/
@@ -101,21 +98,63 @@ structure StepPost (f : Option EventId) (st st' : St) (es : List Event) (n : Str
   raised : st'.raised = if hits f es then some .user else none
   mem : st'.mem = if hits f es then st.mem else (st.write n l w).mem
 
+/-- a converter chain (`pipe`): the members' events up to and including a failing one; no member touches the
+    instance; if none fails the result is the left-to-right composition -/
+theorem runConvs_spec (f : Option EventId) (n : String) (ms : List Conv) :
+    ∀ (i : Nat) (v : Val) (st : St), st.raised = none →
+      (runConvs f n i ms v st).1.trace = st.trace ++ cutAt f (pipeEvents n i ms v) ∧
+      (runConvs f n i ms v st).1.raised = (if hits f (pipeEvents n i ms v) then some .user else none) ∧
+      (runConvs f n i ms v st).1.mem = st.mem ∧
+      (hits f (pipeEvents n i ms v) = false → (runConvs f n i ms v st).2 = pipeVal n i ms v) := by
+  induction ms with
+  | nil => intro i v st hr; simp [runConvs, pipeEvents, pipeVal, cutAt, hits, hr]
+  | cons c cs ih =>
+    intro i v st hr
+    by_cases hf : f = some { kind := "conv", field := n, idx := i }
+    · simp [runConvs, pipeEvents, cutAt, hits, hf, St.emit]
+    · have h1 : (st.emit f { id := { kind := "conv", field := n, idx := i }, args := convEventArgsN n c v }).raised = none := by
+        simp [emit_raised, hf, hr]
+      have := ih (i + 1) (convValAt n i c v) _ h1
+      obtain ⟨t1, t2, t3, t4⟩ := this
+      simp only [runConvs, h1, Option.isSome_none, Bool.false_eq_true, if_false, pipeEvents, pipeVal, cutAt, hf,
+        hits_cons, decide_false, Bool.false_or]
+      refine ⟨?_, t2, ?_, t4⟩
+      · rw [t1]; simp
+      · rw [t3]; rfl
+
 theorem setField_spec (cfg : Cfg) (f : Option EventId) (b : Bool) (a : Attr) (v : Val) (st : St)
     (hr : st.raised = none) :
     StepPost f st (setField cfg f b a v st) (convEvents a v) a.name (storeLoc (tech cfg b a) a) (convApply a v) := by
-  unfold setField convEvents convApply
+  unfold setField convEvents convEventsOf convApply
   cases hc : a.conv with
   | none => constructor <;> simp [store_tech, cutAt, hits, hr]
   | some c =>
-    by_cases hf : f = some { kind := "conv", field := a.name, idx := 0 }
-    · constructor <;> simp [store_tech, cutAt, hits, ev, hf, emit_raised, St.emit]
-    · constructor
-      · simp [store_tech, cutAt, hits, ev, hf, emit_raised, hr]
-      · simp [store_tech, cutAt, hits, ev, hf, emit_raised, hr]
-      · simp only [store_tech, emit_raised, hf, hr, if_false, Option.isSome_none, Bool.false_eq_true, hits, ev,
-          List.any_cons, List.any_nil, Bool.or_false, decide_eq_true_eq]
-        exact write_mem_congr _ _ _ _ _ rfl
+    cases hp : a.pipe with
+    | none =>
+      by_cases hf : f = some { kind := "conv", field := a.name, idx := 0 }
+      · constructor <;> simp [store_tech, cutAt, hits, hf, emit_raised, St.emit]
+      · constructor
+        · simp [store_tech, cutAt, hits, hf, emit_raised, hr]
+        · simp [store_tech, cutAt, hits, hf, emit_raised, hr]
+        · simp only [store_tech, emit_raised, hf, hr, if_false, Option.isSome_none, Bool.false_eq_true, hits,
+            List.any_cons, List.any_nil, Bool.or_false, decide_eq_true_eq]
+          exact write_mem_congr _ _ _ _ _ rfl
+    | some ms =>
+      obtain ⟨t1, t2, t3, t4⟩ := runConvs_spec f a.name ms 0 v st hr
+      dsimp only
+      generalize runConvs f a.name 0 ms v st = r at *
+      cases hh : hits f (pipeEvents a.name 0 ms v) with
+      | true =>
+        have hrs : r.1.raised.isSome = true := by rw [t2, hh]; rfl
+        rw [if_pos hrs]
+        exact ⟨t1, by rw [t2, hh], by rw [t3, hh]; rfl⟩
+      | false =>
+        have hrs : ¬ (r.1.raised.isSome = true) := by rw [t2, hh]; simp
+        rw [if_neg hrs, store_tech]
+        refine ⟨by rw [write_trace, t1], by rw [write_raised, t2, hh], ?_⟩
+        rw [t4 hh, hh]
+        simp only [Bool.false_eq_true, if_false]
+        exact write_mem_congr _ _ _ _ _ t3
 
 /-- the value passed for a field, as the body sees it in its environment; `none` = use the default -/
 def givenEnv (env : List (String × Val)) (a : Attr) : Option Val :=
